@@ -615,7 +615,7 @@ impl TypedScenario for C07Raw {
     fn budget(&self, tier: Tier) -> usize {
         match tier {
             Tier::Quick => 3000,
-            Tier::Thorough => 200_000,
+            Tier::Thorough => 1_000_000,
         }
     }
     fn generate(&self, seed: u64, index: usize, tier: Tier) -> Plan {
